@@ -1,4 +1,6 @@
 import MtblProofs.SorterProofs
+import MtblProofs.SorterWriteProofs
+import MtblProps.C01
 /-
   C06 — Sorter: for every multiset of entries added in any order, with any memory limit (hence any split
   into chunks), the iterator yields each distinct key once, in ascending order, with the value obtained by
@@ -158,5 +160,43 @@ example : sorterRun exCfg exMCfg 9 exAdds =
 example : sorterRun exCfg exMCfg 12 exAdds11 =
     some [⟨[], [7, 8, 10]⟩, ⟨[1], [5, 6, 9]⟩, ⟨[2], [2, 3, 4]⟩, ⟨[3], [1]⟩, ⟨[4], [11]⟩] := by
   decide +kernel
+
+/-- `mtbl_sorter_write` into a fresh writer (any configuration, any foreign prefix): it succeeds, the sorter is then
+    iterating (so further adds and writes are refused, C06_refuse), and the finished file opens and iterates back to the
+    sorted, merged input: strictly ascending keys, exactly the keys added, each value a combination of all values added
+    for that key — C06_output ∘ C04_source_write ∘ C01_roundtrip -/
+theorem C06_write (c : SCfg) (f : Bytes → Bytes → Bytes → Option Bytes)
+    (hsort : ∀ l, (c.sortFn l).Perm l ∧ Sorted (c.sortFn l)) (hm : c.merge = some f)
+    (hok : ∀ k a b, f k a b ≠ none)
+    (mc : MCfg) (hmm : mc.merge = some f) (hds : mc.dupsort = none) (hF2 : mc.fixF2 = true)
+    (adds : List Entry) (fuel : Nat) (hfuel : adds.length + 1 ≤ fuel)
+    (cfg : WCfg) (comp : Bytes → Bytes) (decomp : Nat → Bytes → Option Bytes) (hw : WriterOK cfg comp decomp)
+    (pre : Bytes) (verify : Bool) :
+    let s := (Sorter.addAll { cfg := c } adds).2
+    let x := s.writeTo mc fuel (W.new cfg pre.length)
+    ∃ out : List Entry,
+      StrictSorted out ∧ (∀ k, (∃ e ∈ out, e.key = k) ↔ (∃ e ∈ adds, e.key = k)) ∧
+      (∀ e ∈ out, Folded f e.key (valuesOf e.key adds) e.val) ∧
+      x.1 = .success ∧ x.2.1.iterating = true ∧
+      (SizesOK cfg comp pre out →
+        ∃ r, readerOpen true cfg.thr decomp verify (pre ++ x.2.2.finish) = .ok r ∧
+          ((out = [] ∧ readerIterInit true r none .iter = some none) ∨
+           (∃ it₀, readerIterInit true r none .iter = some (some it₀) ∧
+              rRun it₀ (List.replicate (out.length + 1) .next) = some (out.map some ++ [none])))) := by
+  intro s x
+  obtain ⟨_, m, g1, g2, g3, g4, g5⟩ := Mtbl.C06_output c f hsort hm hok mc hmm hds hF2 adds fuel hfuel
+  have hni : s.iterating = false := (Mtbl.C06_chunks c f hsort hm hok adds).2.2.2.1
+  refine ⟨mergerDrain mc fuel m, g3, g4, g5, ?_⟩
+  have g1' : (s.iter mc).1 = some m := g1
+  have hx : x = (.success, (s.iter mc).2, ((W.new cfg pre.length).addAll (mergerDrain mc fuel m)).2) := by
+    show s.writeTo mc fuel (W.new cfg pre.length) = _
+    unfold Sorter.writeTo
+    rw [if_neg (by rw [hni]; decide)]
+    simp only [g1']
+    rw [sourceWrite_sorted cfg pre.length _ g3]
+  rw [hx]
+  refine ⟨rfl, g2, fun hsz => ?_⟩
+  exact Mtbl.C01.C01_roundtrip cfg comp decomp hw pre _ g3 hsz verify
+
 
 end Mtbl.C06
